@@ -178,7 +178,8 @@ def run(rep, pdb, tier):
             tgt = e.target
             idx = lin_add(i, j)
             okv = e.index == idx and e.value == ("op", "+", ("idx", tgt, idx), ("op", "*", ("idx", CO0, i), ("idx", CO1, j)))
-            okr = ri[1:5] == (num(0), DEG0, True, False) and rj[1:5] == (num(0), DEG1, True, False)
+            end = lambda r_: lin_add(r_[2], num(1)) if r_[3] else r_[2]      # exclusive end: 0..=deg and 0..len are the same range
+            okr = (ri[1], end(ri), ri[4]) == (num(0), LEN(CO0), False) and (rj[1], end(rj), rj[4]) == (num(0), LEN(CO1), False)
             alloc = [x.value for x in effs if x.kind == "assign" and x.target == tgt]
             anode = [x.node for x in effs if x.kind == "assign" and x.target == tgt]
             if not alloc and tgt[0] == "field" and tgt[1][0] == "var":
